@@ -444,6 +444,8 @@ def cases(tier, seed):
   add('case_pwl_fn', nk=4, units=1, mono='increasing', clamp_min=True, clamp_max=True)
   add('case_pwl_fn', nk=3, units=2, mono='increasing', clamp_min=True, omin=-1.0, omax=2.0)
   add('case_pwl_fn', nk=4, units=1, mono='none', cyclic=True)
+  add('case_pwl_fn', nk=3, units=1, mono='none', cyclic=True, missing_input=-1.0)
+  add('case_pwl_fn', nk=4, units=2, mono='none', cyclic=True, missing_input=0.0, omin=-1.0, omax=2.0, per_unit_input=True)
   add('case_pwl_fn', nk=3, units=2, mono='none', missing_input=-1.0, imin=1.0, imax=4.0, omin=-2.0, omax=3.0, per_unit_input=True)
   add('case_pwl_fn', nk=3, units=1, mono='increasing', missing_input=0.0, omin=0.5, omax=2.0)
   for act in ('relu6', 'sigmoid'):
